@@ -11,7 +11,7 @@ def run(res, tier, seed, replay):
                        "chosen by the harness (boundary words max-1, max, max+1, 2^64-1, 0 for moduli 2, 3, 2^k, 2^k+-1, around 2^63, ULONG_MAX) "
                        "and logged; every record is recomputed by the extracted Coq model on the same bytes; PROPFAIL = out-of-range value, "
                        "a raw word accepted outside the unbiased range, too few random bytes, or the exact-distribution sweep failing "
-                       "(all coin vectors for n<=5, 6 in thorough -> every index vector exactly once; all n rotation offsets); "
+                       "(all coin vectors for n<=6, 7 in thorough -> every index vector exactly once; all n rotation offsets); "
                        "a chi-square test of positional marginals (n up to 64) is a secondary statistical check with a very loose bound")
     res.assumptions += ["uniformity is proved as a counting statement about the map coins -> result; that libgcrypt's bytes are uniform and "
                         "independent is trusted", "the three quality levels only select the libgcrypt entry point (all interposed)",
@@ -37,18 +37,24 @@ def run(res, tier, seed, replay):
                 res.violation("harness-crash", "harness c07 (part %s) exited with %d: %s" % (p, rc, err[-800:]),
                               dict(kind="harness", cmd="c07 --tier %s --seed %d --only %s" % (tier, s, p), stderr=err[-2000:]))
             outs.append((s, p, out))
+    allprops, allmism = [], []
     for s, p, out in outs:
         for l in out.split("\n"):
             if l.startswith("NOTE "):
                 res.notes.append("seed %d: %s" % (s, l[5:]))
         mism, props = vpl.correspond(res, "C07", out, drv)
-        for pl in props:
-            parts = pl.split(" ", 2)
-            res.violation(parts[1], "sampler property fails on the implementation: " + parts[2][:1500],
-                          dict(kind="propfail", harness="c07", seed=s, tier=tier, part=p, line=pl[:4000]))
-        for m in mism[:6]:
-            mm = m.split(" :: ", 1)
-            rec = mm[1] if len(mm) > 1 else ""
-            res.violation("correspondence", "model and implementation disagree: " + m[:600],
-                          dict(kind="correspondence", harness="c07", seed=s, tier=tier, part=p, record=rec[:20000], detail=m[:2000]),
-                          found_input=bool(rec))
+        allprops += [(s, p, pl) for pl in props]
+        allmism += [(s, p, m) for m in mism[:6]]
+    # property failures with a concrete failing input first, one per key first, then the rest
+    seen = set()
+    allprops.sort(key=lambda t: (t[2].split(" ", 2)[1] in seen) or seen.add(t[2].split(" ", 2)[1]) or False)
+    for s, p, pl in allprops:
+        parts = pl.split(" ", 2)
+        res.violation(parts[1], "sampler property fails on the implementation: " + parts[2][:1500],
+                      dict(kind="propfail", harness="c07", seed=s, tier=tier, part=p, line=pl[:4000]))
+    for s, p, m in allmism:
+        mm = m.split(" :: ", 1)
+        rec = mm[1] if len(mm) > 1 else ""
+        res.violation("correspondence", "model and implementation disagree: " + m[:600],
+                      dict(kind="correspondence", harness="c07", seed=s, tier=tier, part=p, record=rec[:20000], detail=m[:2000]),
+                      found_input=bool(rec))
